@@ -28,6 +28,8 @@ static const std::vector<std::string>& env_values(bool reduced)
         for (int i = 0; i < 300; i++)
             many += (i ? ";" : "") + std::string("e") + std::to_string(i);
         v.push_back(many);
+        v.push_back("d"); // exactly the declared default: the value still comes from the environment (provided)
+        v.push_back("2");
         for (auto sp : { "%s", "$HOME", "a\\b", "a\tb", "a\rb", "\x7f", "a,b", "a:b", "\"q\"", "'q'", " lead", "trail " })
             v.push_back(sp);
         return v;
@@ -42,6 +44,8 @@ static std::vector<Config> configs(char kind, const std::string& sfx, bool reduc
     std::string name = (kind == 'o' ? "opt" : kind == 'm' ? "multi" : "tog") + sfx;
     std::string sh = sfx.empty() ? std::string(1, kind) : std::string(1, static_cast<char>(toupper(kind)));
     std::string var = "VP_" + std::string(1, static_cast<char>(toupper(kind))) + sfx;
+    if (sfx == "lc")
+        var = std::string("vp_mixed_Case_") + kind; // variable names are case sensitive
     std::vector<std::vector<std::string>> spellings = { {} };
     if (kind == 'o')
         spellings = { {}, { "--" + name, "c" }, { "--" + name + "=c" }, { "-" + sh, "c" }, { "-" + sh + "=" } };
@@ -115,6 +119,18 @@ int main(int argc, char** argv)
                 Decl Dprev;
                 Dprev.items = { Item::opt("other", "o"), Item::tog("flag", "t") };
                 chk.used_before(ctx, D, Dprev, c.argv, env);
+            }
+        // the same with a variable name in mixed case (reduced value list)
+        for (char k : { 'o', 'm', 't' })
+            for (auto& c : configs(k, "lc", true))
+            {
+                Decl D;
+                D.items = { c.item };
+                Env env;
+                if (c.env_set)
+                    env[c.item.env] = c.env_value;
+                one(D, c.argv, env);
+                singles++;
             }
         // every single configuration again as the SECOND parse on one parser object, after each other configuration
         // of the same item (the ranking must not depend on what an earlier parse took from which source)
